@@ -5,7 +5,7 @@ from fractions import Fraction
 
 from harness import coqio as cq
 from harness import thr_common as tc
-from harness.common import CONFIGS, F, enc, fl, score_list
+from harness.common import CONFIGS, F, enc, fl, pick_dtype, score_list
 
 ID = "C15"
 PROPS_FILE = "Props/C15.v"
@@ -43,11 +43,11 @@ def gen_scores(rng, exact):
     if exact:
         npos, nneg = rng.choice([1, 2, 4, 4, 8]), rng.choice([1, 2, 4, 4, 8])
         ep, en = rng.choice([0, 0, npos, 3 * npos]), rng.choice([0, 0, nneg, 3 * nneg])
-        style = rng.choice(["ties", "dyadic", "ints", "distinct"])
+        style = rng.choice(["ties", "dyadic", "ints", "distinct", "uint"])
     else:
         npos, nneg = rng.choice([1, 2, 3, 5, 6, 7, 9]), rng.choice([1, 2, 3, 4, 5, 7, 10])
         ep, en = rng.choice([0, 0, 1, 2, 5, 30]), rng.choice([0, 0, 1, 3, 7])
-        style = rng.choice(["ties", "dyadic", "ints", "distinct", "float"])
+        style = rng.choice(["ties", "dyadic", "ints", "distinct", "float", "uint"])
     return score_list(rng, npos, style), score_list(rng, nneg, style), ep, en
 
 
@@ -88,6 +88,12 @@ def gen_case(rng, k, exact=None, supplied=None, nb_points="?", x_axis=None):
     case["fnr"] = [enc(x) for x in gen_rates(rng, exact)] if supplied & 1 else None
     case["fpr"] = [enc(x) for x in gen_rates(rng, exact)] if supplied & 2 else None
     case["thresholds"] = [enc(x) for x in gen_thresholds(rng, pos + neg, exact)] if supplied & 4 else None
+    # array dtypes: scores in any dtype that holds them exactly (float32, int8, int64, uint8, uint16), user thresholds likewise
+    case["dtype"] = pick_dtype(rng, pos + neg)
+    if case["dtype"].startswith("uint") and case["thresholds"]:
+        if rng.random() < 0.7:   # thresholds of the same unsigned kind: taken from the scores
+            case["thresholds"] = [enc(rng.choice(pos + neg)) for _ in case["thresholds"]]
+    case["thr_dtype"] = pick_dtype(rng, [F(x) for x in case["thresholds"]]) if case["thresholds"] else "float64"
     case["nb_points"] = rng.choice([None, 2, 3, 10, 10, 100, 0, 1, 7]) if nb_points == "?" else nb_points
     case["x_axis"] = x_axis or (AXES[k % 8] if rng.random() < 0.93 else "ppv")
     return case
@@ -128,6 +134,8 @@ def run_impl(case):
 
     s = tc.make_scores(case)
     fnr, fpr, thr = _arr(case["fnr"], np), _arr(case["fpr"], np), _arr(case["thresholds"], np)
+    if thr is not None:
+        thr = thr.astype(np.dtype(case.get("thr_dtype", "float64")))
     c = roc(s, fnr=fnr, fpr=fpr, thresholds=thr, nb_points=case["nb_points"], x_axis=case["x_axis"])
     t = np.asarray(c.thresholds, dtype=float)
     out = {"thresholds": _encl(t), "fnr": _encl(c.fnr), "fpr": _encl(c.fpr),
